@@ -369,7 +369,7 @@ pub fn c02_cli_unit(unit: &Unit, _shard: u32, seed: u64, tier: Tier, rec: &mut R
     run_prop(
         rec,
         seed,
-        tier.pick(25, 320),
+        tier.pick(100, 600),
         strat,
         |((b, from), to, dbg)| json!({"unit": "cli", "bytes": hex(&b.bytes), "text": brief_bytes(&b.bytes), "from": opt_name(*from), "to": to.name(), "bin": if *dbg { "debug" } else { "release" }}),
         |((b, from), to, dbg), r| c02_cli_case(&b.bytes, *from, *to, if *dbg { Bin::Debug } else { Bin::Release }, r),
